@@ -100,9 +100,9 @@ type run struct {
 	tickFloor     map[string]uint32
 	// abandonFloor: a Refresh whose caller gave up (context ended) leaves its poll round running; a
 	// later Refresh may join that round, whose values are as old as the round. It is kept until no
-	// single-flight goroutine is alive any more.
+	// goroutine started by an abandoning caller is alive any more.
 	abandonFloor map[string]uint32
-	abandoned    bool
+	abandoners   []string
 	cancels      map[string]context.CancelFunc
 	viol         []violation
 	secretNil    map[string]bool
@@ -451,12 +451,18 @@ func (r *run) act(tn string, ctx context.Context, a string) {
 		if r.activeRefresh == 0 {
 			r.floorNow = snap
 		}
-		if r.abandoned && !r.x.LiveMatching("singleflight.go") {
-			r.abandoned, r.abandonFloor = false, nil
+		if len(r.abandoners) > 0 {
+			live := false
+			for _, a := range r.abandoners {
+				live = live || r.x.LiveDescendants(a)
+			}
+			if !live {
+				r.abandoners, r.abandonFloor = nil, nil
+			}
 		}
 		r.activeRefresh++
 		rec.floor = minFloor(minFloor(r.floorNow, snap), r.tickFloor)
-		if r.abandoned {
+		if len(r.abandoners) > 0 {
 			rec.floor = minFloor(rec.floor, r.abandonFloor)
 		}
 		r.mu.Unlock()
@@ -466,11 +472,12 @@ func (r *run) act(tn string, ctx context.Context, a string) {
 		rec.end, rec.err, rec.logTo = r.clk, err, r.svc.NReq()
 		r.activeRefresh--
 		if err != nil && ctx.Err() != nil {
-			if r.abandoned {
+			if len(r.abandoners) > 0 {
 				r.abandonFloor = minFloor(r.abandonFloor, rec.floor)
 			} else {
-				r.abandoned, r.abandonFloor = true, rec.floor
+				r.abandonFloor = rec.floor
 			}
+			r.abandoners = append(r.abandoners, tn)
 		}
 		r.refr = append(r.refr, rec)
 		r.mu.Unlock()
